@@ -63,4 +63,73 @@ example : Gen.Trans.Dialer_init_after (waitSeq 12) = 3 * second ∧ Model.Dialer
     ∧ Model.Dialer.attempts = 50 := by
   decide
 
+/-! ### the error classification of `(*Dialer).init` (tools/extract/translate_switch.go)
+
+`Gen.Trans.Dialer_init_switch` is the tagless `switch` of `init`, re-translated on every run, over the
+six tests it applies to the error value (`errors.As` to `*os.SyscallError` / `*fs.PathError`,
+`errors.Is` with `os.ErrPermission` / `ErrLinkNotReady` / `ErrLinkChange`, `err == nil`):
+0 = no error, 1 = fatal, 2 = recoverable (falls through to the retry loop).  -/
+
+/-- the decision in closed form: recoverable iff a non-permission system call error (whichever of the
+    two error types reports it), or — not being a system call error — link-not-ready or link-change;
+    no error iff none of those and `err == nil`; fatal otherwise.  Moving a clause, dropping the
+    permission test, classing `*fs.PathError` apart from `*os.SyscallError` (finding F-30), or
+    testing `err == nil` first changes the translated definition and this stops checking. -/
+theorem init_switch_spec (sys path perm lnr lc isNil : Bool) :
+    Gen.Trans.Dialer_init_switch (As_os_SyscallError := sys) (As_fs_PathError := path)
+        (Is_os_ErrPermission := perm) (Is_ErrLinkNotReady := lnr) (Is_ErrLinkChange := lc) (err_nil := isNil)
+      = (if sys || path then (if perm then 1 else 2)
+         else if lnr || lc then 2
+         else if isNil then 0 else 1) := by
+  cases sys <;> cases path <;> cases perm <;> cases lnr <;> cases lc <;> cases isNil <;> rfl
+
+/-- the tests as they come out for the error classes of the model's `DialOut` (`viaPath`: the system
+    call error is reported as a `*fs.PathError` rather than an `*os.SyscallError`) -/
+def dialOutCode (o : Model.Dialer.DialOut) (viaPath : Bool) : Nat :=
+  let isSys := o == .syscall || o == .permission
+  Gen.Trans.Dialer_init_switch (As_os_SyscallError := isSys && !viaPath) (As_fs_PathError := isSys && viaPath)
+    (Is_os_ErrPermission := o == .permission) (Is_ErrLinkNotReady := o == .linkNotReady)
+    (Is_ErrLinkChange := false) (err_nil := o == .ok)
+
+/-- **the translated switch decides the first dial's error exactly as `Model.Dialer.DialOut.next`**:
+    recoverable classes enter the retry loop, the others end `Dial` with that error -/
+theorem init_switch_dialOut (o : Model.Dialer.DialOut) (viaPath : Bool) (k : Nat) (ho : o ≠ .ok) :
+    (dialOutCode o viaPath = 2 ↔ o.next k = Model.Dialer.enterRetry 0) ∧
+    (dialOutCode o viaPath = 1 ↔ o.next k = .inl (.dial k)) ∧
+    dialOutCode o viaPath ≠ 0 := by
+  have hr : Model.Dialer.enterRetry 0 = .inr (.retry 0) := by
+    unfold Model.Dialer.enterRetry
+    have : (0 : Nat) < Model.Dialer.attempts := by decide
+    simp [this]
+  cases o <;> cases viaPath <;>
+    simp [dialOutCode, init_switch_spec, Model.Dialer.DialOut.next, hr] at ho ⊢
+
+/-- the same for what the task returned (`Model.Dialer.TaskOut.next`), for every class whose error
+    reaches `init` (a task that returned nil does not; `context.Canceled` itself is classed fatal here
+    and mapped to nil by `Dial`) -/
+def taskOutCode (t : Model.Dialer.TaskOut) (viaPath : Bool) : Nat :=
+  let isSys := t == .syscall || t == .permission
+  Gen.Trans.Dialer_init_switch (As_os_SyscallError := isSys && !viaPath) (As_fs_PathError := isSys && viaPath)
+    (Is_os_ErrPermission := t == .permission) (Is_ErrLinkNotReady := false)
+    (Is_ErrLinkChange := t == .linkChange) (err_nil := false)
+
+theorem init_switch_taskOut (t : Model.Dialer.TaskOut) (viaPath : Bool) (k : Nat)
+    (h1 : t ≠ .nil) (h2 : t ≠ .cancelled) (h3 : t ≠ .cancelledErr) :
+    (taskOutCode t viaPath = 2 ↔ t.next k = Model.Dialer.enterRetry 0) ∧
+    (taskOutCode t viaPath = 1 ↔ t.next k = .inl (.task k)) := by
+  have hr : Model.Dialer.enterRetry 0 = .inr (.retry 0) := by
+    unfold Model.Dialer.enterRetry
+    have : (0 : Nat) < Model.Dialer.attempts := by decide
+    simp [this]
+  cases t <;> cases viaPath <;>
+    simp [taskOutCode, init_switch_spec, Model.Dialer.TaskOut.next, hr] at h1 h2 h3 ⊢
+
+/-- non-vacuity: ENETDOWN from sendmsg re-dials, EPERM does not, a PathError{ENOENT} re-dials,
+    a link change re-dials, a plain error does not -/
+example :
+    dialOutCode .syscall false = 2 ∧ dialOutCode .permission false = 1 ∧ dialOutCode .syscall true = 2 ∧
+    dialOutCode .permission true = 1 ∧ dialOutCode .linkNotReady false = 2 ∧ dialOutCode .other false = 1 ∧
+    taskOutCode .linkChange false = 2 ∧ taskOutCode .retries false = 1 ∧ taskOutCode .other true = 1 := by
+  decide
+
 end Corerad.Props.TransC10
